@@ -535,8 +535,14 @@ def run(ctx):
                                     'budgets in {0,1,2}^2' % (3 if ctx.tier == 'thorough' else 2, 20))
     if ctx.tier == 'thorough':
         from vh import core
-        sample = [model_case(c) for c in gen_cases(ctx)[:250]]
+        allc = gen_cases(ctx) + token_cases(ctx)
+        sample = [model_case(c) for c in allc[::max(1, len(allc) // 250)][:250]]
         a = ctx.model(sample)
+        # the clean rebuild of the thorough tier only compiled the cone of Props/C09.v: Dispatch needs every model
+        targets = ' '.join(x[:-2] + '.vo' for x in core.coq_sources() if x.startswith(('Base/', 'Gen/', 'Model/')))
+        with core.BuildLock():
+            core.sh('timeout 1500 make -j4 %s' % targets, cwd=core.COQ, timeout=1600)
+            core.sh('timeout 600 coqc -Q . KV Extract/Dispatch.v', cwd=core.COQ, timeout=700)
         b = core.run_model_in_coq(sample, 'c09')
         if a != b:
             ctx.disagree('what=extraction_vs_vm_compute', dict(kind='extraction'), None, None,
